@@ -18,25 +18,25 @@ import EvalFilter.Props.Tables
 namespace EvalFilter.Props.C01
 open EvalFilter EvalFilter.VM
 
-variable (M : Machine) (st : RunSt)
+variable (M : Machine)
 
 /-! ### dispatch: which table an operand pair reaches -/
 
 theorem C01_dispatch_int_int (op : Op) (a b : Int64) (h1 : op ≠ .and) (h2 : op ≠ .or) :
-    binop M st op (.int a) (.int b) = (intOp op a b).map (fun v => (v, st)) := by
+    binop M op (.int a) (.int b) = (intOp op a b).map (fun v => (v, [])) := by
   cases op <;> simp_all [binop]
 
 /-! ### integer arithmetic stays integer -/
 
-theorem C01_int_add (a b : Int64) : binop M st .add (.int a) (.int b) = .ok (.int (a + b), st) := by
+theorem C01_int_add (a b : Int64) : binop M .add (.int a) (.int b) = .ok (.int (a + b), []) := by
   simp [binop, intOp, Except.map]
-theorem C01_int_sub (a b : Int64) : binop M st .sub (.int a) (.int b) = .ok (.int (a - b), st) := by
+theorem C01_int_sub (a b : Int64) : binop M .sub (.int a) (.int b) = .ok (.int (a - b), []) := by
   simp [binop, intOp, Except.map]
-theorem C01_int_mul (a b : Int64) : binop M st .mul (.int a) (.int b) = .ok (.int (a * b), st) := by
+theorem C01_int_mul (a b : Int64) : binop M .mul (.int a) (.int b) = .ok (.int (a * b), []) := by
   simp [binop, intOp, Except.map]
-theorem C01_int_div (a b : Int64) (h : b ≠ 0) : binop M st .div (.int a) (.int b) = .ok (.int (a / b), st) := by
+theorem C01_int_div (a b : Int64) (h : b ≠ 0) : binop M .div (.int a) (.int b) = .ok (.int (a / b), []) := by
   simp [binop, intOp, Except.map, h]
-theorem C01_int_mod (a b : Int64) (h : b ≠ 0) : binop M st .mod (.int a) (.int b) = .ok (.int (a % b), st) := by
+theorem C01_int_mod (a b : Int64) (h : b ≠ 0) : binop M .mod (.int a) (.int b) = .ok (.int (a % b), []) := by
   simp [binop, intOp, Except.map, h]
 
 /-- the result of an arithmetic operator on two integers, when there is one, is an integer -/
@@ -62,21 +62,21 @@ theorem C01_int_arith_stays_int (op : Op) (a b : Int64) (v : Value)
 /-! ### int mixed with float is computed in float -/
 
 theorem C01_mixed_int_float (op : Op) (a : Int64) (b : Float) :
-    binop M st op (.int a) (.float b) =
-      (if op = .and then .ok (.bool ((Value.int a).truthy && (Value.float b).truthy), st)
-       else if op = .or then .ok (.bool ((Value.int a).truthy || (Value.float b).truthy), st)
-       else (floatOp op a.toFloat b).map (fun v => (v, st))) := by
+    binop M op (.int a) (.float b) =
+      (if op = .and then .ok (.bool ((Value.int a).truthy && (Value.float b).truthy), [])
+       else if op = .or then .ok (.bool ((Value.int a).truthy || (Value.float b).truthy), [])
+       else (floatOp op a.toFloat b).map (fun v => (v, []))) := by
   cases op <;> simp [binop, vbool, Except.map]
 
 theorem C01_mixed_float_int (op : Op) (a : Float) (b : Int64) :
-    binop M st op (.float a) (.int b) =
-      (if op = .and then .ok (.bool ((Value.float a).truthy && (Value.int b).truthy), st)
-       else if op = .or then .ok (.bool ((Value.float a).truthy || (Value.int b).truthy), st)
-       else (floatOp op a b.toFloat).map (fun v => (v, st))) := by
+    binop M op (.float a) (.int b) =
+      (if op = .and then .ok (.bool ((Value.float a).truthy && (Value.int b).truthy), [])
+       else if op = .or then .ok (.bool ((Value.float a).truthy || (Value.int b).truthy), [])
+       else (floatOp op a b.toFloat).map (fun v => (v, []))) := by
   cases op <;> simp [binop, vbool, Except.map]
 
 theorem C01_float_float (op : Op) (a b : Float) (h1 : op ≠ .and) (h2 : op ≠ .or) :
-    binop M st op (.float a) (.float b) = (floatOp op a b).map (fun v => (v, st)) := by
+    binop M op (.float a) (.float b) = (floatOp op a b).map (fun v => (v, [])) := by
   cases op <;> simp_all [binop, Except.map]
 
 /-- arithmetic in float yields a float -/
@@ -92,18 +92,18 @@ theorem C01_float_arith_is_float (op : Op) (a b : Float) (v : Value)
 
 /-- comparisons between numbers are numeric whatever the mix of int and float -/
 theorem C01_eq_numeric_cross (a : Int64) (b : Float) :
-    binop M st .equal (.int a) (.float b) = .ok (.bool (a.toFloat == b), st) ∧
-    binop M st .equal (.float b) (.int a) = .ok (.bool (b == a.toFloat), st) ∧
-    binop M st .notEqual (.int a) (.float b) = .ok (.bool (a.toFloat != b), st) ∧
-    binop M st .less (.int a) (.float b) = .ok (.bool (a.toFloat < b), st) := by
+    binop M .equal (.int a) (.float b) = .ok (.bool (a.toFloat == b), []) ∧
+    binop M .equal (.float b) (.int a) = .ok (.bool (b == a.toFloat), []) ∧
+    binop M .notEqual (.int a) (.float b) = .ok (.bool (a.toFloat != b), []) ∧
+    binop M .less (.int a) (.float b) = .ok (.bool (a.toFloat < b), []) := by
   simp [binop, floatOp, vbool, Except.map]
 
 /-! ### division and modulo by zero never produce a value -/
 
-theorem C01_div_zero_int (a : Int64) : binop M st .div (.int a) (.int 0) = .error (.error "div0") := by
+theorem C01_div_zero_int (a : Int64) : binop M .div (.int a) (.int 0) = .error (.error "div0") := by
   simp [binop, intOp, err, Except.map]
 
-theorem C01_mod_zero_int (a : Int64) : binop M st .mod (.int a) (.int 0) = .error .panic := by
+theorem C01_mod_zero_int (a : Int64) : binop M .mod (.int a) (.int 0) = .error .panic := by
   simp [binop, intOp, Except.map]
 
 theorem C01_div_zero_float (a : Float) (b : Float) (hb : (b == 0) = true) :
@@ -111,22 +111,22 @@ theorem C01_div_zero_float (a : Float) (b : Float) (hb : (b == 0) = true) :
   simp [floatOp, err, hb]
 
 /-- `/` and `%` by integer zero are errors, never values -/
-theorem C01_div_mod_zero_never_value (op : Op) (hop : op = .div ∨ op = .mod) (a : Int64) (v : Value) (st' : RunSt) :
-    binop M st op (.int a) (.int 0) ≠ .ok (v, st') := by
+theorem C01_div_mod_zero_never_value (op : Op) (hop : op = .div ∨ op = .mod) (a : Int64) (v : Value) (st' : Str) :
+    binop M op (.int a) (.int 0) ≠ .ok (v, st') := by
   rcases hop with rfl | rfl <;> simp [binop, intOp, err, Except.map]
 
 /-! ### strings concatenate and order lexically -/
 
-theorem C01_string_concat (a b : Str) : binop M st .add (.str a) (.str b) = .ok (.str (a ++ b), st) := by
+theorem C01_string_concat (a b : Str) : binop M .add (.str a) (.str b) = .ok (.str (a ++ b), []) := by
   simp [binop, strOp, Except.map]
 
 theorem C01_string_order (a b : Str) :
-    binop M st .less (.str a) (.str b) = .ok (.bool (Str.lt a b), st) ∧
-    binop M st .lessEqual (.str a) (.str b) = .ok (.bool (Str.le a b), st) ∧
-    binop M st .greater (.str a) (.str b) = .ok (.bool (Str.lt b a), st) ∧
-    binop M st .greaterEqual (.str a) (.str b) = .ok (.bool (Str.le b a), st) ∧
-    binop M st .equal (.str a) (.str b) = .ok (.bool (a == b), st) ∧
-    binop M st .notEqual (.str a) (.str b) = .ok (.bool (a != b), st) := by
+    binop M .less (.str a) (.str b) = .ok (.bool (Str.lt a b), []) ∧
+    binop M .lessEqual (.str a) (.str b) = .ok (.bool (Str.le a b), []) ∧
+    binop M .greater (.str a) (.str b) = .ok (.bool (Str.lt b a), []) ∧
+    binop M .greaterEqual (.str a) (.str b) = .ok (.bool (Str.le b a), []) ∧
+    binop M .equal (.str a) (.str b) = .ok (.bool (a == b), []) ∧
+    binop M .notEqual (.str a) (.str b) = .ok (.bool (a != b), []) := by
   simp [binop, strOp, vbool, Except.map]
 
 /-- `Str.lt` is the lexicographic order on code points: irreflexive and total -/
@@ -159,7 +159,7 @@ theorem C01_eq_unlike_is_error (op : Op) (hop : op = .equal ∨ op = .notEqual) 
     (hl : ¬ (l.isType .INTEGER ∨ l.isType .FLOAT)) (hlr : l.type? ≠ r.type?)
     (hlv : l.type?.isSome) (hrv : r.type?.isSome)
     (hsr : ¬ (l.isType .STRING ∧ r.isType .REGEXP)) :
-    binop M st op l r = .error (.error "typeMismatch") := by
+    binop M op l r = .error (.error "typeMismatch") := by
   rcases hop with rfl | rfl <;>
   cases l <;> cases r <;>
     simp_all [binop, Value.isType, Value.type?, err, Except.map]
@@ -167,17 +167,17 @@ theorem C01_eq_unlike_is_error (op : Op) (hop : op = .equal ∨ op = .notEqual) 
 /-! ### `~=` and `!~` test a string against a regexp; `in` tests membership or substring -/
 
 theorem C01_in_array (l : Value) (els : List Value) (hl : l ≠ .nil) :
-    binop M st .arrayIn l (.array els) = .ok (.bool (els.any (fun e => sameTypeAndText l e)), st) := by
+    binop M .arrayIn l (.array els) = .ok (.bool (els.any (fun e => sameTypeAndText l e)), []) := by
   cases l <;> simp_all [binop, vbool, Except.map]
 
 /-- `in` with a right operand that is neither an array nor (for a string on the left) a string is an error -/
-theorem C01_in_needs_array (l r : Value) (v : Value) (st' : RunSt)
+theorem C01_in_needs_array (l r : Value) (v : Value) (st' : Str)
     (hr : ¬ r.isType .ARRAY) (hs : ¬ (l.isType .STRING ∧ r.isType .STRING)) :
-    binop M st .arrayIn l r ≠ .ok (v, st') := by
+    binop M .arrayIn l r ≠ .ok (v, st') := by
   cases l <;> cases r <;> simp_all [binop, Value.isType, Value.type?, err, Except.map, intOp, floatOp]
 
 theorem C01_in_substring (a b : Str) :
-    binop M st .arrayIn (.str a) (.str b) = .ok (.bool (Str.contains b a), st) := by
+    binop M .arrayIn (.str a) (.str b) = .ok (.bool (Str.contains b a), []) := by
   simp [binop, strOp, vbool, Except.map]
 
 /-- `Str.contains` is the substring relation -/
@@ -226,7 +226,7 @@ theorem C01_unsupported_types_error (op : Op) (l r : Value)
     (hnum : ¬ ((l.isType .INTEGER ∨ l.isType .FLOAT) ∧ (r.isType .INTEGER ∨ r.isType .FLOAT)))
     (hs : ¬ (l.isType .STRING ∧ (r.isType .STRING ∨ r.isType .REGEXP)))
     (hb : ¬ (l.isType .BOOLEAN ∧ r.isType .BOOLEAN)) :
-    ∃ e, binop M st op l r = .error e := by
+    ∃ e, binop M op l r = .error e := by
   cases l <;> cases r <;>
     simp_all [binop, Value.isType, Value.type?, err, Except.map] <;>
     (first | exact ⟨_, rfl⟩ | (split <;> exact ⟨_, rfl⟩))
@@ -254,8 +254,8 @@ theorem C01_range_errors (lo hi : Value) (v : Value)
   cases lo <;> cases hi <;> simp_all [rangeOp, Value.isType, Value.type?, err]
 
 /-- non-vacuity: concrete instances of the laws above -/
-example : binop M st .add (.int 2) (.int 3) = .ok (.int 5, st) := C01_int_add M st 2 3
-example : binop M st .div (.int 7) (.int 0) = .error (.error "div0") := C01_div_zero_int M st 7
+example : binop M .add (.int 2) (.int 3) = .ok (.int 5, []) := C01_int_add M 2 3
+example : binop M .div (.int 7) (.int 0) = .error (.error "div0") := C01_div_zero_int M 7
 example : Str.contains "hello".toList "ell".toList = true := by decide
 
 end EvalFilter.Props.C01
